@@ -200,26 +200,37 @@ def tlc_mc(ctx, module, cfg, workers=8, timeout=1800, extra_files=(), expect_vio
     return rec, out
 
 
-def tlapm(ctx, module, timeout=600, expect_fail=False):
+def tlapm(ctx, module, timeout=900, expect_fail=False):
     """TLAPS: the theorems of a Proofs_*.tla module (unbounded statements about operators of the specification) are re-proved
-    from scratch (no fingerprint cache).  An unproved obligation is a defect of the specification's proofs: exit 2, never a violation."""
-    d = _specdir(ctx, 'tlapm.' + module)
-    t0 = time.time()
-    try:
-        rc, out = sh(['tlapm', '--threads', '8', '--cleanfp', module + '.tla'], cwd=d, timeout=timeout)
-    except subprocess.TimeoutExpired:
-        raise Inconclusive('tlapm timed out on %s' % module)
-    m = re.search(r'All (\d+) obligations? proved', out)
-    f = re.search(r'(\d+)/(\d+) obligations? failed', out)
-    rec = dict(module=module, obligations=int(m.group(1)) if m else (int(f.group(2)) if f else 0),
-               discharged=int(m.group(1)) if m else (int(f.group(2)) - int(f.group(1)) if f else 0),
-               theorems=len(re.findall(r'^THEOREM', open(os.path.join(d, module + '.tla')).read(), re.M)), wall_s=round(time.time() - t0, 1))
-    shutil.rmtree(d, ignore_errors=True)
+    from scratch (no fingerprint cache).  The back-end provers work under time limits, so a run on a loaded machine can fail to
+    discharge an obligation that it discharges in a second otherwise: the run is repeated with stretched limits.  An obligation
+    that stays open is a defect of the specification's proofs, never a violation: thorough tier exit 2; quick tier a note in the
+    evidence (the same proofs are checked in setup_cmd and decide nothing about zlint)."""
+    rec, out, m, rc = None, '', None, 1
+    for stretch in ('3', '10'):
+        d = _specdir(ctx, 'tlapm.' + module)
+        t0 = time.time()
+        try:
+            rc, out = sh(['tlapm', '--threads', '6', '--stretch', stretch, '--cleanfp', module + '.tla'], cwd=d, timeout=timeout)
+        except subprocess.TimeoutExpired:
+            rc, out = 1, 'timeout'
+        m = re.search(r'All (\d+) obligations? proved', out)
+        f = re.search(r'(\d+)/(\d+) obligations? failed', out)
+        rec = dict(module=module, obligations=int(m.group(1)) if m else (int(f.group(2)) if f else 0),
+                   discharged=int(m.group(1)) if m else (int(f.group(2)) - int(f.group(1)) if f else 0),
+                   theorems=len(re.findall(r'^THEOREM', open(os.path.join(d, module + '.tla')).read(), re.M)), stretch=int(stretch), wall_s=round(time.time() - t0, 1))
+        shutil.rmtree(d, ignore_errors=True)
+        if expect_fail or (m and rc == 0):
+            break
     if expect_fail:
         if m or rc == 0:
             raise Inconclusive('negative control %s: tlapm proved statements that are false' % module)
         return rec
     if not m or rc != 0:
+        if ctx.quick:
+            ctx.notes.append('tlapm left obligations of %s open in this run (%s of %s discharged; back-end time limits): the proofs are checked in setup_cmd' % (
+                module, rec['discharged'], rec['obligations']))
+            return rec
         raise Inconclusive('specification defect: tlapm did not prove %s\n%s' % (module, out[-3000:]))
     ctx.proofs = getattr(ctx, 'proofs', []) + [rec]
     return rec
